@@ -336,3 +336,570 @@ Proof.
       destruct (nth_error r j) eqn:Ej; [|reflexivity].
       assert (nth_error r j <> None) as N by congruence. apply nth_error_Some in N. lia.
 Qed.
+
+(* ============================================================ array_fixup *)
+Lemma mapM_nth {A B} (f : A -> res B) l ys :
+  mapM f l = Ok ys ->
+  length ys = length l /\
+  forall k x, nth_error l k = Some x -> exists y, nth_error ys k = Some y /\ f x = Ok y.
+Proof.
+  revert ys. induction l as [|a l IH]; intros ys H.
+  - cbn [mapM] in H. injection H as <-. split; [reflexivity|]. intros [|k] x E; discriminate.
+  - cbn [mapM bind] in H. destruct (f a) as [y|e] eqn:Ey; [|discriminate]. cbn [bind] in H.
+    destruct (mapM f l) as [ys'|e] eqn:El; [|discriminate]. cbn [bind] in H. injection H as <-.
+    destruct (IH ys' eq_refl) as [Hlen Hnth]. split; [cbn [length]; congruence|].
+    intros [|k] x E; cbn [nth_error] in *.
+    + injection E as <-. exists y. split; [reflexivity|exact Ey].
+    + apply Hnth. exact E.
+Qed.
+
+Lemma mapM_all_ok {A B} (f : A -> res B) l :
+  (forall x, In x l -> exists y, f x = Ok y) -> exists ys, mapM f l = Ok ys.
+Proof.
+  induction l as [|a l IH]; intros H; [exists []; reflexivity|].
+  destruct (H a (or_introl eq_refl)) as [y Ey].
+  destruct IH as [ys Eys]; [intros x Hx; apply H; right; exact Hx|].
+  exists (y :: ys). cbn [mapM bind]. rewrite Ey. cbn [bind]. rewrite Eys. reflexivity.
+Qed.
+
+Lemma mapM_tuple_rows {A} (g : A -> res (list pyval)) P ys :
+  mapM (fun ch => r <- g ch ;; Ok (VTuple r)) P = Ok ys ->
+  exists out, ys = map VTuple out /\ mapM g P = Ok out.
+Proof.
+  revert ys. induction P as [|p P IH]; intros ys H.
+  - cbn [mapM] in H. injection H as <-. exists []. split; reflexivity.
+  - cbn [mapM bind] in H. destruct (g p) as [r|e] eqn:Eg; [|discriminate]. cbn [bind] in H.
+    destruct (mapM (fun ch => r <- g ch ;; Ok (VTuple r)) P) as [ys'|e] eqn:El; [|discriminate].
+    cbn [bind] in H. injection H as <-.
+    destruct (IH ys' eq_refl) as (out & -> & Eo). exists (r :: out). split; [reflexivity|].
+    cbn [mapM bind]. rewrite Eg. cbn [bind]. rewrite Eo. reflexivity.
+Qed.
+
+Lemma combine_app {A B} (a1 a2 : list A) (b1 b2 : list B) :
+  length a1 = length b1 -> combine (a1 ++ a2) (b1 ++ b2) = combine a1 b1 ++ combine a2 b2.
+Proof.
+  revert b1. induction a1 as [|x a1 IH]; intros [|y b1] H; cbn [length] in H; try discriminate.
+  - reflexivity.
+  - cbn [app combine]. f_equal. apply IH. congruence.
+Qed.
+
+Lemma nth_error_combine {A B} (l1 : list A) (l2 : list B) k x y :
+  nth_error l1 k = Some x -> nth_error l2 k = Some y -> nth_error (combine l1 l2) k = Some (x, y).
+Proof.
+  revert l2 k. induction l1 as [|a l1 IH]; intros [|b l2] [|k] H1 H2; cbn [nth_error combine] in *;
+    try discriminate.
+  - congruence.
+  - apply IH; assumption.
+Qed.
+
+Definition zip_rows {A B} (M : list (list A)) (N : list (list B)) : list (list (A * B)) :=
+  map (fun ab => combine (fst ab) (snd ab)) (combine M N).
+
+Definition uniform {A} (C : nat) (M : list (list A)) : Prop := Forall (fun r => length r = C) M.
+
+Lemma concat_zip {A B} C (M : list (list A)) (N : list (list B)) :
+  uniform C M -> uniform C N -> length M = length N ->
+  combine (concat M) (concat N) = concat (zip_rows M N).
+Proof.
+  intros HM. revert N. induction HM as [|r M Hr _ IH]; intros N HN Hlen.
+  - destruct N; [reflexivity|discriminate].
+  - destruct N as [|s N]; [discriminate|]. inversion HN; subst.
+    unfold zip_rows. cbn [concat combine map fst snd]. rewrite combine_app by congruence.
+    f_equal. apply IH; [assumption|]. cbn [length] in Hlen. congruence.
+Qed.
+
+Lemma zip_rows_uniform {A B} C (M : list (list A)) (N : list (list B)) :
+  uniform C M -> uniform C N -> uniform C (zip_rows M N).
+Proof.
+  intros HM. revert N. induction HM as [|r M Hr _ IH]; intros N HN.
+  - constructor.
+  - destruct N as [|s N]; [constructor|]. inversion HN; subst. unfold zip_rows.
+    cbn [combine map fst snd]. constructor; [|apply IH; assumption].
+    rewrite combine_length. lia.
+Qed.
+
+Lemma zip_rows_length {A B} (M : list (list A)) (N : list (list B)) :
+  length M = length N -> length (zip_rows M N) = length M.
+Proof. intros H. unfold zip_rows. rewrite map_length, combine_length. lia. Qed.
+
+Lemma concat_length_uniform {A} C (M : list (list A)) :
+  uniform C M -> length (concat M) = (length M * C)%nat.
+Proof.
+  induction 1 as [|r M Hr _ IH]; [reflexivity|]. cbn [concat length]. rewrite app_length. lia.
+Qed.
+
+Lemma chunks_concat {A} C (M : list (list A)) :
+  uniform C M -> chunks (length M) C (concat M) = M.
+Proof.
+  induction 1 as [|r M Hr _ IH]; [reflexivity|].
+  cbn [length chunks concat]. rewrite <- Hr.
+  rewrite firstn_app, Nat.sub_diag, firstn_all, firstn_O, app_nil_r.
+  rewrite skipn_app, Nat.sub_diag, skipn_all. cbn [skipn app]. rewrite Hr. rewrite IH. reflexivity.
+Qed.
+
+Lemma range_count R C : (1 <= C)%nat -> ((R * C + C - 1) / C = R)%nat.
+Proof.
+  intros HC. replace (R * C + C - 1)%nat with (R * C + (C - 1))%nat by lia.
+  rewrite Nat.div_add_l by lia. rewrite Nat.div_small by lia. lia.
+Qed.
+
+(* the operand's element at (i, j) under numpy broadcasting: a scalar, a single
+   row and a single column are repeated *)
+Definition belem (a : nd) (i j : nat) : option pyval :=
+  match a with
+  | Nd0 v => Some v
+  | Nd2 rows =>
+      match nth_error rows (if Nat.eqb (length rows) 1 then O else i) with
+      | Some row => nth_error row (if Nat.eqb (length row) 1 then O else j)
+      | None => None
+      end
+  end.
+
+(* [a] can be broadcast to R x C *)
+Definition fits (a : nd) (R C : nat) : Prop :=
+  match a with
+  | Nd0 _ => True
+  | Nd2 rows =>
+      (length rows = R \/ length rows = 1%nat) /\
+      exists c, (c = C \/ c = 1%nat) /\ rectangular c rows
+  end.
+
+Lemma rect_Forall c rows : rect c rows = true -> rectangular c rows.
+Proof.
+  unfold rect, rectangular. intros H. rewrite forallb_forall in H. apply Forall_forall.
+  intros r Hr. apply Nat.eqb_eq. apply H. exact Hr.
+Qed.
+
+Definition nd_wf (a : nd) : Prop :=
+  match a with
+  | Nd0 _ => True
+  | Nd2 rows => rows <> [] /\ (1 <= length (hd [] rows))%nat /\ rectangular (length (hd [] rows)) rows
+  end.
+
+Lemma to_nd_wf l a : to_nd l = Ok a -> nd_wf a.
+Proof.
+  unfold to_nd. destruct l; try discriminate; try (intros H; injection H as <-; exact I).
+  destruct (rows_of l) as [[|r0 rest]|]; try discriminate.
+  destruct (negb (Nat.eqb (length r0) 0) && rect (length r0) (r0 :: rest)
+            && forallb (forallb scalar_like) (r0 :: rest)) eqn:E; [|discriminate].
+  intros H. injection H as <-. apply andb_true_iff in E. destruct E as [E _].
+  apply andb_true_iff in E. destruct E as [E1 E2].
+  cbn [nd_wf hd]. split; [discriminate|]. split.
+  - apply negb_true_iff, Nat.eqb_neq in E1. lia.
+  - apply rect_Forall. exact E2.
+Qed.
+
+Lemma bdim_some a b n : bdim a b = Some n ->
+  (a = n \/ a = 1%nat) /\ (b = n \/ b = 1%nat) /\ (n = a \/ n = b).
+Proof.
+  unfold bdim. destruct (Nat.eqb_spec a b) as [->|N]; [intros H; injection H as <-; auto|].
+  destruct (Nat.eqb_spec a 1) as [->|N1]; [intros H; injection H as <-; auto|].
+  destruct (Nat.eqb_spec b 1) as [->|N2]; [intros H; injection H as <-; auto|discriminate].
+Qed.
+
+Lemma bshape_fits a b R C : nd_wf a -> nd_wf b -> bshape a b = Some (R, C) ->
+  fits a R C /\ fits b R C /\ (1 <= R)%nat /\ (1 <= C)%nat.
+Proof.
+  intros Wa Wb. unfold bshape.
+  assert (L : forall rows : list (list pyval), rows <> [] -> (1 <= length rows)%nat)
+    by (intros [|? ?] ?; [congruence|cbn [length]; lia]).
+  destruct a as [va|ra], b as [vb|rb]; cbn [nd_shape]; try discriminate.
+  - intros H. injection H as <- <-. destruct Wb as (Hne & Hc & Hrect).
+    repeat split; auto. exists (length (hd [] rb)). auto.
+  - intros H. injection H as <- <-. destruct Wa as (Hne & Hc & Hrect).
+    repeat split; auto. exists (length (hd [] ra)). auto.
+  - destruct Wa as (Hna & Hca & Hra), Wb as (Hnb & Hcb & Hrb).
+    destruct (bdim (length ra) (length rb)) as [r|] eqn:Er; [|discriminate].
+    destruct (bdim (length (hd [] ra)) (length (hd [] rb))) as [c|] eqn:Ec; [|discriminate].
+    intros H. injection H as <- <-.
+    apply bdim_some in Er, Ec. destruct Er as (Er1 & Er2 & Er3), Ec as (Ec1 & Ec2 & Ec3).
+    pose proof (L ra Hna). pose proof (L rb Hnb).
+    split; [|split; [|split]].
+    + split; [exact Er1|]. exists (length (hd [] ra)). auto.
+    + split; [exact Er2|]. exists (length (hd [] rb)). auto.
+    + lia.
+    + lia.
+Qed.
+
+Lemma expand_row_ok C row c : length row = c -> (c = C \/ c = 1%nat) -> (1 <= C)%nat ->
+  length (expand_row C row) = C /\
+  forall j, (j < C)%nat -> nth_error (expand_row C row) j
+                           = nth_error row (if Nat.eqb (length row) 1 then O else j).
+Proof.
+  intros Hlen Hc HC. unfold expand_row.
+  destruct row as [|x [|y row']]; cbn [length] in *.
+  - split; [lia|]. intros j _. destruct j; reflexivity.
+  - split; [apply repeat_length|]. intros j Hj. cbn [Nat.eqb nth_error].
+    apply nth_error_repeat. exact Hj.
+  - split; [lia|]. intros j _. reflexivity.
+Qed.
+
+Lemma expand_ok a R C : fits a R C -> (1 <= R)%nat -> (1 <= C)%nat ->
+  length (expand a R C) = R /\ uniform C (expand a R C) /\
+  forall i j, (i < R)%nat -> (j < C)%nat -> elem2 (expand a R C) i j = belem a i j.
+Proof.
+  intros Hf HR HC. destruct a as [v|rows]; cbn [expand belem].
+  - split; [apply repeat_length|]. split.
+    + unfold uniform. apply Forall_forall. intros r Hr. apply repeat_spec in Hr. subst.
+      apply repeat_length.
+    + intros i j Hi Hj. unfold elem2. rewrite nth_error_repeat by exact Hi.
+      apply nth_error_repeat. exact Hj.
+  - destruct Hf as (Hr & c & Hc & Hrect).
+    set (rows' := map (expand_row C) rows).
+    assert (U : uniform C rows').
+    { unfold uniform, rows'. apply Forall_map. eapply Forall_impl; [|exact Hrect].
+      intros r Hlr. cbv beta in Hlr |- *. apply (expand_row_ok C r c); assumption. }
+    assert (Lr : length rows' = length rows) by apply map_length.
+    assert (N : forall i j row, nth_error rows i = Some row -> (j < C)%nat ->
+                elem2 rows' i j = nth_error row (if Nat.eqb (length row) 1 then O else j)).
+    { intros i j row Ei Hj. unfold elem2, rows'. rewrite nth_error_map, Ei. cbn [option_map].
+      assert (Hlr : length row = c).
+      { unfold rectangular in Hrect. rewrite Forall_forall in Hrect. apply Hrect.
+        eapply nth_error_In. exact Ei. }
+      apply (expand_row_ok C row c); assumption. }
+    destruct (Nat.eqb_spec (length rows) 1) as [E1|E1].
+    + (* a single row, repeated *)
+      destruct rows as [|row0 [|? ?]]; cbn [length] in E1; try lia.
+      unfold rows' in *. cbn [map] in *.
+      split; [apply repeat_length|]. split.
+      * unfold uniform. apply Forall_forall. intros r Hr'. apply repeat_spec in Hr'. subst.
+        inversion U; subst. assumption.
+      * intros i j Hi Hj. unfold elem2 at 1. rewrite nth_error_repeat by exact Hi.
+        cbn [nth_error]. specialize (N O j row0 eq_refl Hj). unfold elem2 in N.
+        cbn [nth_error] in N. exact N.
+    + assert (HRr : length rows = R) by (destruct Hr; [assumption|contradiction]).
+      assert (Same : match rows' with [r] => repeat r R | _ => rows' end = rows').
+      { destruct rows' as [|r1 [|? ?]] eqn:Erows; try reflexivity.
+        cbn [length] in Lr. lia. }
+      rewrite Same. split; [lia|]. split; [exact U|].
+      intros i j Hi Hj.
+      destruct (nth_error rows i) as [row|] eqn:Ei.
+      * apply N; assumption.
+      * apply nth_error_None in Ei. lia.
+Qed.
+
+Lemma elem2_zip (M N : list (list pyval)) i j u v :
+  elem2 M i j = Some u -> elem2 N i j = Some v ->
+  exists ch, nth_error (zip_rows M N) i = Some ch /\ nth_error ch j = Some (u, v).
+Proof.
+  unfold elem2, zip_rows. intros HM HN.
+  destruct (nth_error M i) as [rm|] eqn:Em; [|discriminate].
+  destruct (nth_error N i) as [rn|] eqn:En; [|discriminate].
+  exists (combine rm rn). split.
+  - rewrite nth_error_map. rewrite (nth_error_combine M N i rm rn Em En). reflexivity.
+  - apply nth_error_combine; assumption.
+Qed.
+
+Lemma array_fixup_unfold l o r a b R C :
+  to_nd l = Ok a -> to_nd r = Ok b -> bshape a b = Some (R, C) ->
+  array_fixup l o r
+  = (rows <- mapM (fix_row o) (zip_rows (expand a R C) (expand b R C)) ;; Ok (VTuple rows)).
+Proof.
+  intros Ha Hb Hs. unfold array_fixup. rewrite Ha, Hb. cbn [bind]. rewrite Hs.
+  destruct (bshape_fits a b R C (to_nd_wf l a Ha) (to_nd_wf r b Hb) Hs) as (Fa & Fb & HR & HC).
+  destruct (expand_ok a R C Fa HR HC) as (La & Ua & _).
+  destruct (expand_ok b R C Fb HR HC) as (Lb & Ub & _).
+  cbv zeta. rewrite (concat_zip C) by (try assumption; congruence).
+  pose proof (zip_rows_uniform C _ _ Ua Ub) as Uz.
+  rewrite (concat_length_uniform C) by exact Uz.
+  rewrite zip_rows_length by congruence. rewrite La.
+  rewrite range_count by exact HC.
+  replace R with (length (zip_rows (expand a R C) (expand b R C))) at 1
+    by (rewrite zip_rows_length by congruence; exact La).
+  rewrite chunks_concat by exact Uz. reflexivity.
+Qed.
+
+(* C13_op_pointwise *)
+Lemma op_pointwise l o r a b R C res :
+  to_nd l = Ok a -> to_nd r = Ok b -> bshape a b = Some (R, C) ->
+  array_fixup l o r = Ok res ->
+  exists out, res = matrix out /\ length out = R /\ rectangular C out /\
+    forall i j, (i < R)%nat -> (j < C)%nat ->
+      exists u v x, belem a i j = Some u /\ belem b i j = Some v
+                    /\ fixup u o v = Ok x /\ elem2 out i j = Some x.
+Proof.
+  intros Ha Hb Hs H. rewrite (array_fixup_unfold l o r a b R C Ha Hb Hs) in H.
+  destruct (bshape_fits a b R C (to_nd_wf l a Ha) (to_nd_wf r b Hb) Hs) as (Fa & Fb & HR & HC).
+  destruct (expand_ok a R C Fa HR HC) as (La & Ua & Ea).
+  destruct (expand_ok b R C Fb HR HC) as (Lb & Ub & Eb).
+  set (P := zip_rows (expand a R C) (expand b R C)) in *.
+  destruct (mapM (fix_row o) P) as [ys|e] eqn:Ey; [|discriminate]. cbn [bind] in H.
+  injection H as <-.
+  destruct (mapM_tuple_rows (mapM (fix_pair o)) P ys Ey) as (out & -> & Eo).
+  exists out. split; [reflexivity|].
+  destruct (mapM_nth _ _ _ Eo) as [Lo No].
+  assert (LP : length P = R) by (unfold P; rewrite zip_rows_length by congruence; exact La).
+  pose proof (zip_rows_uniform C _ _ Ua Ub) as UP. fold P in UP.
+  split; [congruence|]. split.
+  - unfold rectangular. apply Forall_forall. intros ro Hro.
+    apply In_nth_error in Hro. destruct Hro as [k Hk].
+    assert (Hk' : (k < length P)%nat).
+    { rewrite <- Lo. apply nth_error_Some. congruence. }
+    destruct (nth_error P k) as [ch|] eqn:Ech; [|apply nth_error_None in Ech; lia].
+    destruct (No k ch Ech) as (y & Ey' & Ef). rewrite Hk in Ey'. injection Ey' as <-.
+    destruct (mapM_nth _ _ _ Ef) as [Lro _]. rewrite Lro.
+    unfold uniform in UP. rewrite Forall_forall in UP. apply UP. eapply nth_error_In. exact Ech.
+  - intros i j Hi Hj.
+    assert (Hu : exists u, belem a i j = Some u).
+    { rewrite <- Ea by assumption. unfold elem2.
+      destruct (nth_error (expand a R C) i) as [ra|] eqn:E1; [|apply nth_error_None in E1; lia].
+      assert (length ra = C) as Lra
+        by (unfold uniform in Ua; rewrite Forall_forall in Ua; apply Ua; eapply nth_error_In; exact E1).
+      destruct (nth_error ra j) as [u|] eqn:E2; [exists u; reflexivity|apply nth_error_None in E2; lia]. }
+    assert (Hv : exists v, belem b i j = Some v).
+    { rewrite <- Eb by assumption. unfold elem2.
+      destruct (nth_error (expand b R C) i) as [rb|] eqn:E1; [|apply nth_error_None in E1; lia].
+      assert (length rb = C) as Lrb
+        by (unfold uniform in Ub; rewrite Forall_forall in Ub; apply Ub; eapply nth_error_In; exact E1).
+      destruct (nth_error rb j) as [v|] eqn:E2; [exists v; reflexivity|apply nth_error_None in E2; lia]. }
+    destruct Hu as [u Hu], Hv as [v Hv]. exists u, v.
+    destruct (elem2_zip (expand a R C) (expand b R C) i j u v) as (ch & Ech & Ej).
+    { rewrite Ea by assumption. exact Hu. }
+    { rewrite Eb by assumption. exact Hv. }
+    fold P in Ech. destruct (No i ch Ech) as (ro & Ero & Ef).
+    destruct (mapM_nth _ _ _ Ef) as [_ Nro]. destruct (Nro j (u, v) Ej) as (x & Ex & Efx).
+    exists x. repeat split; try assumption.
+    unfold elem2. rewrite Ero. exact Ex.
+Qed.
+
+(* … and the array result is defined as soon as every scalar application is *)
+Lemma op_defined l o r a b R C :
+  to_nd l = Ok a -> to_nd r = Ok b -> bshape a b = Some (R, C) ->
+  (forall i j u v, (i < R)%nat -> (j < C)%nat -> belem a i j = Some u -> belem b i j = Some v ->
+                   exists x, fixup u o v = Ok x) ->
+  exists res, array_fixup l o r = Ok res.
+Proof.
+  intros Ha Hb Hs Hall. rewrite (array_fixup_unfold l o r a b R C Ha Hb Hs).
+  destruct (bshape_fits a b R C (to_nd_wf l a Ha) (to_nd_wf r b Hb) Hs) as (Fa & Fb & HR & HC).
+  destruct (expand_ok a R C Fa HR HC) as (La & Ua & Ea).
+  destruct (expand_ok b R C Fb HR HC) as (Lb & Ub & Eb).
+  destruct (mapM_all_ok (fix_row o) (zip_rows (expand a R C) (expand b R C))) as [ys Eys].
+  - intros ch Hch. unfold zip_rows in Hch. apply in_map_iff in Hch.
+    destruct Hch as ([ra rb] & <- & Hin). cbn [fst snd].
+    apply In_nth_error in Hin. destruct Hin as [i Hi].
+    assert (Hi' : (i < R)%nat).
+    { rewrite <- La. assert (nth_error (combine (expand a R C) (expand b R C)) i <> None) as N by congruence.
+      apply nth_error_Some in N. rewrite combine_length in N. lia. }
+    assert (Era : nth_error (expand a R C) i = Some ra /\ nth_error (expand b R C) i = Some rb).
+    { destruct (nth_error (expand a R C) i) as [ra'|] eqn:E1; [|apply nth_error_None in E1; lia].
+      destruct (nth_error (expand b R C) i) as [rb'|] eqn:E2; [|apply nth_error_None in E2; lia].
+      rewrite (nth_error_combine _ _ i ra' rb' E1 E2) in Hi. injection Hi as <- <-. auto. }
+    destruct Era as [Era Erb].
+    destruct (mapM_all_ok (fix_pair o) (combine ra rb)) as [rs Ers].
+    + intros [u v] Huv. apply In_nth_error in Huv. destruct Huv as [j Hj].
+      assert (Lra : length ra = C)
+        by (unfold uniform in Ua; rewrite Forall_forall in Ua; apply Ua; eapply nth_error_In; exact Era).
+      assert (Hj' : (j < C)%nat).
+      { assert (nth_error (combine ra rb) j <> None) as N by congruence.
+        apply nth_error_Some in N. rewrite combine_length in N. lia. }
+      assert (Lrb : length rb = C)
+        by (unfold uniform in Ub; rewrite Forall_forall in Ub; apply Ub; eapply nth_error_In; exact Erb).
+      destruct (nth_error ra j) as [u'|] eqn:E1; [|apply nth_error_None in E1; lia].
+      destruct (nth_error rb j) as [v'|] eqn:E2; [|apply nth_error_None in E2; lia].
+      rewrite (nth_error_combine _ _ j u' v' E1 E2) in Hj. injection Hj as <- <-.
+      unfold fix_pair. cbn [fst snd]. apply (Hall i j); try assumption.
+      * rewrite <- Ea by assumption. unfold elem2. rewrite Era. exact E1.
+      * rewrite <- Eb by assumption. unfold elem2. rewrite Erb. exact E2.
+    + exists (VTuple rs). unfold fix_row. rewrite Ers. reflexivity.
+  - rewrite Eys. cbn [bind]. eexists. reflexivity.
+Qed.
+
+Lemma op_incompatible l o r a b :
+  to_nd l = Ok a -> to_nd r = Ok b -> bshape a b = None -> array_fixup l o r = Raise ValueError.
+Proof. intros Ha Hb Hs. unfold array_fixup. rewrite Ha, Hb. cbn [bind]. rewrite Hs. reflexivity. Qed.
+
+(* ------------------------------------------- the dispatch in front of array_fixup *)
+Definition operand (v : pyval) : Prop :=
+  scalar_like v = true \/ exists l, v = VTuple l.
+
+Lemma list_like_scalar v : scalar_like v = true -> list_like_b v = Ok false.
+Proof. destruct v; try discriminate; reflexivity. Qed.
+Lemma list_like_array l : list_like_b (VTuple l) = Ok true.
+Proof. reflexivity. Qed.
+
+(* no scalar operand is an error: the array branch decides *)
+Lemma op_dispatch l o r :
+  operand l -> operand r ->
+  (scalar_like l = true -> in_error_codes l = Ok false) ->
+  (scalar_like r = true -> in_error_codes r = Ok false) ->
+  (exists x, l = VTuple x) \/ (exists x, r = VTuple x) ->
+  op_fixup l o r = array_fixup l o r.
+Proof.
+  intros [Sl|[xl ->]] [Sr|[xr ->]] El Er Harr; unfold op_fixup.
+  - destruct Harr as [[x ->]|[x ->]]; discriminate.
+  - rewrite (list_like_scalar l Sl), list_like_array. cbn [bind]. rewrite (El Sl). reflexivity.
+  - rewrite (list_like_scalar r Sr), list_like_array. cbn [bind]. rewrite (Er Sr). reflexivity.
+  - rewrite !list_like_array. reflexivity.
+Qed.
+
+(* a scalar error on the left wins, and it is what the scalar operator gives
+   against every element: the scalar result stands for itself at every position *)
+Lemma op_scalar_error_left l o r :
+  scalar_like l = true -> operand r -> in_error_codes l = Ok true ->
+  op_fixup l o r = Ok l /\ forall v, fixup l o v = Ok l.
+Proof.
+  intros Sl Or El. split; [|intros v; apply error_left; exact El].
+  unfold op_fixup. rewrite (list_like_scalar l Sl).
+  destruct Or as [Sr|[x ->]].
+  - rewrite (list_like_scalar r Sr). cbn [bind]. rewrite El. reflexivity.
+  - rewrite list_like_array. cbn [bind]. rewrite El. reflexivity.
+Qed.
+
+(* a scalar error on the right of an array: returned for the whole array; this
+   is the pointwise value only where the array's own element is not an error.
+   MISSING for the full statement (every position): positions whose left element
+   is itself an error — refuted in Refuted/C13_scalar_error.v *)
+Lemma op_scalar_error_right_partial x o r :
+  scalar_like r = true -> in_error_codes r = Ok true ->
+  op_fixup (VTuple x) o r = Ok r /\
+  forall u, in_error_codes u = Ok false -> fixup u o r = Ok r.
+Proof.
+  intros Sr Er. split; [|intros u Eu; apply error_right; assumption].
+  unfold op_fixup. rewrite list_like_array, (list_like_scalar r Sr). cbn [bind]. rewrite Er.
+  reflexivity.
+Qed.
+
+(* ====================================================== cse_array_wrapper *)
+Lemma nth_error_seq_lt s n k : (k < n)%nat -> nth_error (seq s n) k = Some (s + k)%nat.
+Proof.
+  revert s k. induction n; intros s k Hk; [lia|]. destruct k; cbn [seq nth_error].
+  - f_equal. lia.
+  - rewrite IHn by lia. f_equal. lia.
+Qed.
+
+Lemma getitem_nat l k x : nth_error l k = Some x -> py_getitem (VTuple l) (znat k) = Ok x.
+Proof.
+  intros H. assert (Hk : (k < length l)%nat) by (apply nth_error_Some; congruence).
+  unfold znat. cbn [py_getitem as_index]. unfold index_nth, zlen. cbv zeta.
+  assert (E1 : (Z.of_nat k <? 0) = false) by (apply Z.ltb_ge; lia).
+  rewrite E1. rewrite E1.
+  replace (Z.of_nat (length l) <=? Z.of_nat k) with false by (symmetry; apply Z.leb_gt; lia).
+  cbn [orb]. rewrite Nat2Z.id, H. reflexivity.
+Qed.
+
+Section CseProofs.
+  Variable f : list pyval -> res pyval.
+  Variable idx : nat -> bool.
+  Variables R C : nat.
+
+  (* an argument in an array position is an R x C matrix *)
+  Definition arg_shape (b : bool) (a : pyval) : Prop :=
+    b = true -> exists rows, a = matrix rows /\ length rows = R /\ rectangular C rows.
+
+  (* the argument the scalar call receives at position (i, j) *)
+  Definition arg_at (i j : nat) (ba : bool * pyval) : option pyval :=
+    if fst ba
+    then match snd ba with
+         | VTuple rs => match nth_error rs i with
+                        | Some (VTuple r) => nth_error r j
+                        | _ => None end
+         | _ => None end
+    else Some (snd ba).
+
+  Lemma pick_ok fl args i j : Forall2 arg_shape fl args -> (i < R)%nat -> (j < C)%nat ->
+    exists picked, pick_args fl args (znat i) (znat j) = Ok picked
+                   /\ Forall2 (fun ba p => arg_at i j ba = Some p) (combine fl args) picked.
+  Proof.
+    intros H Hi Hj. induction H as [|b a fl args Hs _ IH].
+    - exists []. split; [reflexivity|constructor].
+    - destruct IH as (ps & Eps & Fps). cbn [pick_args combine].
+      destruct b.
+      + destruct (Hs eq_refl) as (rows & -> & HR & Hrect).
+        destruct (nth_error rows i) as [r|] eqn:Er; [|apply nth_error_None in Er; lia].
+        assert (Lr : length r = C).
+        { unfold rectangular in Hrect. rewrite Forall_forall in Hrect. apply Hrect.
+          eapply nth_error_In. exact Er. }
+        destruct (nth_error r j) as [x|] eqn:Ex; [|apply nth_error_None in Ex; lia].
+        exists (x :: ps). split.
+        * unfold matrix. rewrite (getitem_nat (map VTuple rows) i (VTuple r))
+            by (rewrite nth_error_map, Er; reflexivity).
+          cbn [bind]. rewrite (getitem_nat r j x Ex). cbn [bind]. rewrite Eps. reflexivity.
+        * constructor; [|exact Fps]. unfold arg_at, matrix. cbn [fst snd].
+          rewrite nth_error_map, Er. cbn [option_map]. exact Ex.
+      + exists (a :: ps). split; [cbn [bind]; rewrite Eps; reflexivity|].
+        constructor; [reflexivity|exact Fps].
+  Qed.
+
+  Lemma first_true_shape fl args a : Forall2 arg_shape fl args -> first_true fl args = Some a ->
+    exists rows, a = matrix rows /\ length rows = R /\ rectangular C rows.
+  Proof.
+    intros H. induction H as [|b x fl args Hs _ IH]; [discriminate|].
+    cbn [first_true]. destruct b.
+    - intros E. injection E as <-. apply Hs. reflexivity.
+    - exact IH.
+  Qed.
+
+  (* C13_fun_pointwise *)
+  Lemma fun_pointwise args fl a res :
+    (1 <= R)%nat -> (1 <= C)%nat ->
+    mapM (cse_flag idx) (enumerate 0 args) = Ok fl ->
+    Forall2 arg_shape fl args ->
+    first_true fl args = Some a ->
+    cse_wrapper f idx args = Ok res ->
+    exists out, res = matrix out /\ length out = R /\ rectangular C out /\
+      forall i j, (i < R)%nat -> (j < C)%nat ->
+        exists picked x, Forall2 (fun ba p => arg_at i j ba = Some p) (combine fl args) picked
+                         /\ f picked = Ok x /\ elem2 out i j = Some x.
+  Proof.
+    intros HR HC Efl Hshape Efirst H. unfold cse_wrapper in H. rewrite Efl in H. cbn [bind] in H.
+    rewrite Efirst in H.
+    destruct (first_true_shape fl args a Hshape Efirst) as (rows & -> & Lrows & Hrect).
+    destruct rows as [|r0 rest]; [cbn [length] in Lrows; lia|].
+    assert (Lr0 : length r0 = C) by (inversion Hrect; assumption).
+    unfold matrix in H. cbn [py_len bind py_getitem as_index] in H. rewrite index0_rows in H.
+    cbn [bind py_len] in H.
+    rewrite zlen_map in H. unfold zlen in H. rewrite !Nat2Z.id, Lrows, Lr0 in H.
+    match type of H with (rows <- ?m ;; _) = _ => destruct m as [ys|e] eqn:Ey; [|discriminate] end.
+    cbn [bind] in H. injection H as <-.
+    apply mapM_tuple_rows in Ey. destruct Ey as (out & -> & Eo).
+    exists out. split; [reflexivity|].
+    destruct (mapM_nth _ _ _ Eo) as [Lo No]. rewrite seq_length in Lo.
+    split; [exact Lo|]. split.
+    - unfold rectangular. apply Forall_forall. intros ro Hro.
+      apply In_nth_error in Hro. destruct Hro as [k Hk].
+      assert (Hk' : (k < R)%nat) by (rewrite <- Lo; apply nth_error_Some; congruence).
+      destruct (No k k) as (y & Ey' & Ef); [rewrite nth_error_seq_lt by exact Hk'; reflexivity|].
+      rewrite Hk in Ey'. injection Ey' as <-.
+      destruct (mapM_nth _ _ _ Ef) as [Lro _]. rewrite Lro. apply seq_length.
+    - intros i j Hi Hj.
+      destruct (No i i) as (ro & Ero & Ef); [rewrite nth_error_seq_lt by exact Hi; reflexivity|].
+      destruct (mapM_nth _ _ _ Ef) as [_ Nro].
+      destruct (Nro j j) as (x & Ex & Efx); [rewrite nth_error_seq_lt by exact Hj; reflexivity|].
+      destruct (pick_ok fl args i j Hshape Hi Hj) as (picked & Ep & Fp).
+      rewrite Ep in Efx. cbn [bind] in Efx.
+      exists picked, x. split; [exact Fp|]. split; [exact Efx|].
+      unfold elem2. rewrite Ero. exact Ex.
+  Qed.
+
+  (* no array in an array position: the function is called as is *)
+  Lemma fun_no_array args fl :
+    mapM (cse_flag idx) (enumerate 0 args) = Ok fl -> first_true fl args = None ->
+    cse_wrapper f idx args = f args.
+  Proof. intros Efl E. unfold cse_wrapper. rewrite Efl. cbn [bind]. rewrite E. reflexivity. Qed.
+End CseProofs.
+
+(* ================================================== examples (non-vacuity) *)
+Example ex_fit_trim :
+  fit (target 1 2) (matrix [[VInt 1; VInt 2; VInt 3]; [VInt 4; VInt 5; VInt 6]])
+  = Ok (matrix [[VInt 1; VInt 2]]).
+Proof. vm_compute. reflexivity. Qed.
+Example ex_fit_fill :
+  fit (target 2 3) (matrix [[VInt 1; VInt 2]])
+  = Ok (matrix [[VInt 1; VInt 2; NA]; [VInt 1; VInt 2; NA]]).
+Proof. vm_compute. reflexivity. Qed.
+Example ex_fit_column :
+  fit (target 3 2) (matrix [[VInt 1]; [VInt 2]])
+  = Ok (matrix [[VInt 1; VInt 1]; [VInt 2; VInt 2]; [NA; NA]]).
+Proof. vm_compute. reflexivity. Qed.
+Example ex_op_row_col :
+  array_fixup (matrix [[VInt 1; VInt 2]]) Add (matrix [[VInt 10]; [VInt 20]])
+  = Ok (matrix [[VInt 11; VInt 12]; [VInt 21; VInt 22]]).
+Proof. vm_compute. reflexivity. Qed.
+Example ex_op_mismatch :
+  array_fixup (matrix [[VInt 1; VInt 2]]) Add (matrix [[VInt 1; VInt 2; VInt 3]]) = Raise ValueError.
+Proof. vm_compute. reflexivity. Qed.
+Example ex_cse :
+  cse_wrapper (fun xs => Ok (VTuple xs)) (fun _ => true)
+              [matrix [[VInt 1; VInt 2]]; VInt 7]
+  = Ok (matrix [[VTuple [VInt 1; VInt 7]; VTuple [VInt 2; VInt 7]]]).
+Proof. vm_compute. reflexivity. Qed.
